@@ -21,7 +21,6 @@ const FOLLOW: [Op; 8] = [
 
 pub fn drain<const N: usize, P: Pad>(ctx: &mut Ctx) {
     let forget = ctx.args.flag("forget");
-    ctx.panic_props = vec![if forget { "C10" } else { "C09" }, "C11", "C01"];
     let lean = ctx.args.flag("lean");
     let routes: Vec<u8> = ctx.args.list("routes", &[0, 1, 2, 3]).iter().map(|&x| x as u8).collect();
     let maxscript = ctx.args.num("maxscript", 99) as usize;
